@@ -32,7 +32,7 @@ const (
 	hsShaLen     = 32
 	hsPubLen     = 64
 	hsAuthLen    = hsSigLen + hsShaLen + hsPubLen + hsShaLen + 1 // plaintext of the initiator's message
-	hsEncAuthLen = hsAuthLen + 65 + 16 + 32                       // ECIES overhead
+	hsEncAuthLen = hsAuthLen + 65 + 16 + 32                      // ECIES overhead
 )
 
 // detRand is a deterministic byte stream (ECIES needs an entropy source for its ephemeral key).
@@ -267,7 +267,7 @@ func handshakeProp(c *pbt.C) {
 		code = uint64(c.Int("code", 2, 40))
 	case "disconnect":
 		code = 1
-		payload = mustEnc([]uint{uint(c.Int("reason", 0, 300))})
+		payload = mustEnc([]uint{[]uint{0, 3, 12, 13, 14, 255, 1 << 31}[c.Pick("reason", 7)]})
 	case "garbage":
 		payload = c.Bytes("bytes", 0, 60)
 	case "truncated":
@@ -291,13 +291,29 @@ func handshakeProp(c *pbt.C) {
 	}
 	c.Class("proto-handshake-" + pk)
 	werr := make(chan error, 1)
-	go func() { werr <- irw.WriteMsg(p2p.Msg{Code: code, Size: uint32(size), Payload: bytes.NewReader(payload)}) }()
+	go func() {
+		werr <- irw.WriteMsg(p2p.Msg{Code: code, Size: uint32(size), Payload: bytes.NewReader(payload)})
+	}()
 	o := <-out
 	pc2.Close()
 	<-werr
 	c.Note("protocol handshake %s (code %d, %d bytes) -> name=%q err=%v", pk, code, len(payload), o.name, o.err)
 	if o.pan != nil {
 		c.Failf("C15/handshake-panic", "the protocol handshake panicked on %s: %v", pk, o.pan)
+	}
+	if o.err != nil {
+		// observation only: the error value a remote disconnect reason becomes panics in its own
+		// Error method for reason 13 (bounds check off by one in DiscReason.String). Every call site in
+		// p2p formats it through fmt, which recovers such panics, so the process is not at risk.
+		func() {
+			defer func() {
+				if p := recover(); p != nil {
+					c.R.Count("latent_DiscReason_String_panics", 1)
+					c.Note("   (calling Error() on the returned error panics: %v)", p)
+				}
+			}()
+			_ = o.err.Error()
+		}()
 	}
 	if wantOK && o.err != nil {
 		c.Failf("C15/handshake-valid-refused", "a well-formed protocol handshake (%s) was refused: %v", pk, o.err)
